@@ -9,7 +9,7 @@ import ast
 import z3
 
 from .values import V, VNone, NONE, VInt, VBool, VBytes, VStr, VFloat, VList, VTuple, VSeq, VDict, DEntry, VObj, \
-    VClass, VEnum, VFunc, VBuiltin, VTag, VOpaque, VExc, VLib, PyRaise, OutOfSubset, mk, conc_key, BSort, SSort
+    VClass, VEnum, VFunc, VBuiltin, VTag, VOpaque, VExc, VLib, PyRaise, OutOfSubset, mk, conc_key, dict_key, SymKey, BSort, SSort
 
 ValSort = z3.DeclareSort("Val")
 I, B_, S = z3.IntSort(), z3.BoolSort(), z3.StringSort()
@@ -597,30 +597,72 @@ def lex_compare(it, op, xs, ys):
     return VBool(rec(0))
 
 
+def key_eq(it, k, q: V):
+    """Equality of a stored dict key `k` (concrete python key or SymKey) with a query value: True / False / z3 Bool."""
+    from .interp import mk_key
+    kv = mk_key(k) if k is not None else NONE
+    c = _same_kind_eq(it, kv, q)
+    return False if c is None else c
+
+
+def dict_find(it, d: VDict, q: V):
+    """Entry of d whose key equals q (branching on symbolic key equalities / presence), or None."""
+    dk = dict_key(q)
+    if dk is None and not isinstance(q, VNone):
+        if isinstance(q, VOpaque):
+            return "opaque"
+        raise OutOfSubset(f"dict key {q!r}")
+    if not isinstance(dk, SymKey) and not any(isinstance(k, SymKey) for k in d.entries):
+        e = d.entries.get(dk)
+        if e is None and d.open_:
+            e = open_dict_entry(it, d, dk)
+        if e is None:
+            return None
+        if e.present is True or it.pure or it.branch(e.present):
+            return e
+        return None
+    if d.open_:
+        raise OutOfSubset("symbolic key lookup in an open dict")
+    for k, e in list(d.entries.items()):
+        c = key_eq(it, k, q)
+        if c is False:
+            continue
+        if e.present is not True:
+            c = e.present if c is True else z3.And(e.present, c)
+        if c is True or it.branch(c):
+            return e
+    return None
+
+
 def contains(it, container: V, item: V):
     if isinstance(container, VDict):
-        ck = conc_key(item)
-        if ck is None and not isinstance(item, VNone):
-            if isinstance(item, VStr):
-                # symbolic string key against concrete keys
-                conds = []
-                for k, e in container.entries.items():
-                    if isinstance(k, str):
-                        c = item.e == z3.StringVal(k)
-                        conds.append(c if e.present is True else z3.And(e.present, c))
-                if container.open_:
-                    raise OutOfSubset("symbolic key lookup in an open dict")
-                return z3.Or(*conds) if conds else False
+        dk = dict_key(item)
+        if dk is None and not isinstance(item, VNone):
             if isinstance(item, VOpaque):
                 from . import plain
                 return plain.in_dict(it, container, item)
-            raise OutOfSubset(f"membership of symbolic key {item!r} in dict")
-        if ck in container.entries:
-            return container.entries[ck].present
+            if isinstance(item, (VList, VDict)):
+                it.raise_(TypeError, "unhashable type")
+            raise OutOfSubset(f"membership of key {item!r} in dict")
+        if not isinstance(dk, SymKey) and not any(isinstance(k, SymKey) for k in container.entries):
+            if dk in container.entries:
+                return container.entries[dk].present
+            if container.open_:
+                return open_dict_entry(it, container, dk).present
+            return False
         if container.open_:
-            e = open_dict_entry(it, container, ck)
-            return e.present
-        return False
+            raise OutOfSubset("symbolic key lookup in an open dict")
+        conds = []
+        for k, e in container.entries.items():
+            c = key_eq(it, k, item)
+            if c is False:
+                continue
+            if e.present is not True:
+                c = e.present if c is True else z3.And(e.present, c)
+            if c is True:
+                return True
+            conds.append(c)
+        return z3.Or(*conds) if conds else False
     if isinstance(container, (VList, VTuple)):
         conds = []
         for x in container.items:
@@ -705,26 +747,15 @@ def getitem(it, obj: V, key: V) -> V:
     if isinstance(key, VBool):
         key = it.to_int(key)
     if isinstance(obj, VDict):
-        ck = conc_key(key)
-        if ck is None and not isinstance(key, VNone):
-            if isinstance(key, VStr):
-                for k, e in obj.entries.items():
-                    if isinstance(k, str) and it.branch(key.e == z3.StringVal(k)):
-                        if e.present is True or it.branch(e.present):
-                            return e.value
-                        it.raise_(KeyError, k)
-                if obj.open_:
-                    raise OutOfSubset("symbolic key lookup in an open dict")
-                it.raise_(KeyError, "key")
-            raise OutOfSubset(f"dict lookup with symbolic key {key!r}")
-        e = obj.entries.get(ck)
-        if e is None and obj.open_:
-            e = open_dict_entry(it, obj, ck)
+        if isinstance(key, (VList, VDict)):
+            it.raise_(TypeError, "unhashable type")
+        e = dict_find(it, obj, key)
+        if e == "opaque":
+            from . import plain
+            return plain.dict_getitem(it, obj, key)
         if e is None:
-            it.raise_(KeyError, repr(ck))
-        if e.present is True or it.pure or it.branch(e.present):
-            return e.value  # (clauses are total: the value of a possibly absent key is unspecified - guard it)
-        it.raise_(KeyError, repr(ck))
+            it.raise_(KeyError, "key")
+        return e.value
     if isinstance(obj, (VList, VTuple)):
         if isinstance(key, VInt):
             if key.conc is None:
@@ -916,22 +947,32 @@ def setitem(it, obj, key, val):
         if obj.frozen:
             it.raise_(TypeError, "'cbor2.frozendict' object does not support item assignment")
         mark_global_write(it, obj, "dict")
-        ck = conc_key(key)
-        if ck is None and not isinstance(key, VNone):
-            raise OutOfSubset(f"dict store with symbolic key {key!r}")
-        if ck in obj.entries:
-            e = obj.entries[ck]
-            if e.present is not True:
-                # keep position if it was (possibly) present; order subtlety: a key that was absent is appended
-                if it.branch(e.present):
-                    e.value, e.present = val, True
+        if isinstance(key, (VList, VDict)):
+            it.raise_(TypeError, "unhashable type")
+        dk = dict_key(key)
+        if dk is None and not isinstance(key, VNone):
+            raise OutOfSubset(f"dict store with key {key!r}")
+        symbolic = isinstance(dk, SymKey) or any(isinstance(k, SymKey) for k in obj.entries)
+        if not symbolic:
+            if dk in obj.entries:
+                e = obj.entries[dk]
+                if e.present is not True:
+                    # a key that was (possibly) present keeps its position; an absent key is appended
+                    if it.branch(e.present):
+                        e.value, e.present = val, True
+                    else:
+                        del obj.entries[dk]
+                        obj.entries[dk] = DEntry(dk, val)
                 else:
-                    del obj.entries[ck]
-                    obj.entries[ck] = DEntry(ck, val)
+                    e.value = val
             else:
-                e.value = val
+                obj.entries[dk] = DEntry(dk, val)
+            return
+        e = dict_find(it, obj, key)
+        if e is not None and e != "opaque":
+            e.value, e.present = val, True
         else:
-            obj.entries[ck] = DEntry(ck, val)
+            obj.entries[dk] = DEntry(dk, val)
         return
     if isinstance(obj, VList):
         mark_global_write(it, obj, "list")
